@@ -62,6 +62,9 @@ ASSUMPTIONS = [
     "outstanding until its own result, except that a directory which already succeeded is never outstanding again (UPLOADED then UPLOAD "
     "then FAILED / nothing: a success stays a success); an earlier failure of a directory does not matter once its retry succeeded "
     "(tagged +own-directory-tried-again-after=FAILED|UPLOADED)",
+    "HS_DESC events that carry the OWN address but are no upload reports never change the outcome: CREATED, and what this Tor emits when it "
+    "fetches the service's own descriptor from one of the directories (REQUESTED, RECEIVED, IGNORE, FAILED with a REASON only a fetch can "
+    "have: NOT_FOUND, QUERY_REJECTED, QUERY_NO_HSDIR, BAD_DESC, QUERY_RATE_LIMITED); tagged +own-client-side-events / +own-descriptor-fetch-FAILED",
     "events whose address field is the token UNKNOWN (HS_DESC FAILED / REQUESTED for a fetch by descriptor id) are not the service's: "
     "treated like the second service's events (never change the outcome)",
     "FAILED events carry REASON=UPLOAD_REJECTED, REASON=UNEXPECTED or no REASON field: all are upload failures of the named service",
@@ -93,6 +96,7 @@ FLOORS = {
               "cases_with_repeated_own_report": 100, "rejected_cases": 10,
               "cases_with_colliding_own_hsdir_nicknames": 400, "cases_started_in_unsubscribe_window": 60,
               "cases_with_own_retry": 100, "cases_with_unknown_address_events": 100,
+              "cases_with_own_client_side_events": 100,
               "reach:txtorcon.onion:_await_descriptor_upload": 1200,
               "reach:txtorcon.torcontrolprotocol:TorControlProtocol.remove_event_listener": 500},
     "thorough": {"evaluations": 60000, "prefix_checks": 400000, "events_delivered": 250000, "outcomes_compared": 40000,
@@ -100,6 +104,7 @@ FLOORS = {
                  "cases_with_repeated_own_report": 2000, "rejected_cases": 10,
                  "cases_with_colliding_own_hsdir_nicknames": 20000, "cases_started_in_unsubscribe_window": 1000,
                  "cases_with_own_retry": 1000, "cases_with_unknown_address_events": 500,
+                 "cases_with_own_client_side_events": 500,
                  "reach:txtorcon.onion:_await_descriptor_upload": 60000},
 }
 
@@ -144,6 +149,10 @@ ACT = {"U": "UPLOAD", "S": "UPLOADED", "F": "FAILED", "Q": "REQUESTED"}
 # not the own service: "f" = a second onion service, "x" = events whose address field is the token UNKNOWN
 # (legal per control-spec, e.g. a descriptor fetched by its id that failed / was requested)
 FOREIGN = ("f", "x")
+# REASON values that only a descriptor FETCH can have (control-spec 4.1.25); UPLOAD_REJECTED is upload-only,
+# UNEXPECTED may be either
+FETCH_ONLY_REASONS = ("NOT_FOUND", "QUERY_REJECTED", "QUERY_NO_HSDIR", "BAD_DESC", "QUERY_RATE_LIMITED")
+CLIENT_SIDE = ("REQUESTED", "RECEIVED", "IGNORE", "CREATED")
 X = 9          # a directory the own service never uses
 
 
@@ -249,6 +258,22 @@ def unknown_address_cases(maxn):
                     yield [["R"]] + mg
 
 
+def clientside_cases(maxn):
+    """own history x events about the OWN address that are not upload reports, naming an own directory
+    (REQUESTED+RECEIVED, REQUESTED+fetch FAILED, IGNORE) or none (CREATED); every interleaving; reply first"""
+    for n in range(1, maxn + 1):
+        for h in histories(list(range(n)), True):
+            own = [["o", a, d] for (a, d) in h]
+            seqs = [[["n", "CREATED", 0]]]
+            for d in range(n):
+                seqs += [[["n", "REQUESTED", d], ["n", "RECEIVED", d]],
+                         [["n", "REQUESTED", d], ["n", "FETCHFAILED", d]],
+                         [["n", "IGNORE", d]]]
+            for ne in seqs:
+                for mg in merges(own, ne):
+                    yield [["R"]] + mg
+
+
 def dup_cases(maxn, minn=1):
     for n in range(minn, maxn + 1):
         for h in histories(list(range(n)), True):
@@ -334,6 +359,15 @@ def random_case(rnd):
     if rnd.random() < 0.3:            # own CREATED noise (Tor sends it before the uploads)
         k = rnd.randint(0, len(seq))
         seq = seq[:k] + [["n", "CREATED", 0]] + seq[k:]
+    if rnd.random() < 0.25:           # this Tor fetches the service's own descriptor from one of the directories
+        d = rnd.choice(dirs)
+        k = rnd.randint(0, len(seq))
+        k2 = rnd.randint(k + 1, len(seq) + 1)
+        # (schedules that also contain the open foreign-UPLOADED finding's trigger are classified under that
+        # finding's keys: keep the fetch failure out of them so that the two mechanisms stay apart)
+        second = rnd.choice(["RECEIVED", "IGNORE"] if known_trigger(seq) else ["RECEIVED", "FETCHFAILED", "IGNORE"])
+        seq = seq[:k] + [["n", "REQUESTED", d]] + seq[k:]
+        seq = seq[:k2] + [["n", second, d]] + seq[k2:]
     r = rnd.random()
     if r < 0.45:
         pos = 0
@@ -504,7 +538,7 @@ def describe(stimuli, p):
     if s[0] == "R":
         return "creating-reply"
     if s[0] == "n":
-        return "own-" + s[1]
+        return "own-" + ("fetch-FAILED" if s[1] == "FETCHFAILED" else s[1])
     if s[0] == "o":
         return "own-" + ACT[s[1]]
     att = {t[2] for t in stimuli[:p] if t[0] == "o" and t[1] == "U"}
@@ -519,6 +553,11 @@ def mode_name(case):
 def input_class(case, what):
     if known_trigger(case["stimuli"]):
         return mode_name(case) + "+foreign-UPLOADED-on-own-attempted-dir"
+    ns = {t[1] for t in case["stimuli"] if t[0] == "n"}
+    if "FETCHFAILED" in ns:
+        what += "+own-descriptor-fetch-FAILED"
+    elif ns - {"CREATED"}:
+        what += "+own-client-side-events"
     if has_retry(case["stimuli"]):
         what += "+own-directory-tried-again-after=" + has_retry(case["stimuli"])
     elif has_own_duplicate(case["stimuli"]):
@@ -527,7 +566,7 @@ def input_class(case, what):
 
 
 def signature(stimuli):
-    return " ".join("R" if s[0] == "R" else (s[0] + s[1][0] + str(s[2])) for s in stimuli)
+    return " ".join("R" if s[0] == "R" else (s[0] + (s[1][:4] if s[0] == "n" else s[1][0]) + str(s[2])) for s in stimuli)
 
 
 # ---------------------------------------------------------------------------
@@ -701,7 +740,16 @@ def execute(case):
             else:
                 who = foreign if s[0] == "f" else ("UNKNOWN" if s[0] == "x" else addr)
                 if s[0] == "n":
-                    sent = tor.hs_desc("CREATED", who, "UNKNOWN", replica=0)
+                    # events about the OWN address that are not upload reports: the descriptor was built
+                    # (CREATED), or this Tor, acting as a client, fetches the service's own descriptor from a
+                    # directory (REQUESTED / RECEIVED / IGNORE / a FAILED with a fetch-only REASON)
+                    if s[1] == "CREATED":
+                        sent = tor.hs_desc("CREATED", who, "UNKNOWN", replica=0)
+                    elif s[1] == "FETCHFAILED":
+                        sent = tor.hs_desc("FAILED", who, dirname(s[2]), auth="NO_AUTH", descid=AO.descriptor_id(who, s[2]),
+                                           reason=FETCH_ONLY_REASONS[s[2] % len(FETCH_ONLY_REASONS)])
+                    else:
+                        sent = tor.hs_desc(s[1], who, dirname(s[2]), auth="NO_AUTH", descid=AO.descriptor_id(who, s[2]))
                 else:
                     if s[0] == "x":
                         # a descriptor fetch by id: Tor has no address to report
@@ -806,7 +854,8 @@ def run_case(case, rec):
             what += "+other-HS_DESC-listener-registered"
         if case.get("prelude"):
             what += "+" + case["prelude"]
-        if not special and not has_retry(stimuli) and name_style(case) in (1, 2) \
+        if not special and not has_retry(stimuli) and not any(t[0] == "n" and t[1] != "CREATED" for t in stimuli) \
+                and name_style(case) in (1, 2) \
                 and len({t[2] for t in stimuli if t[0] == "o"}) > 1:
             what += "+own-hsdir-nicknames-collide"
         rec.violation(clause, what if special else input_class(case, what), detail, case)
@@ -932,6 +981,8 @@ def run_case(case, rec):
         rec.count("cases_with_own_retry")
     elif has_own_duplicate(stimuli):
         rec.count("cases_with_repeated_own_report")
+    if any(t[0] == "n" and t[1] != "CREATED" for t in stimuli):
+        rec.count("cases_with_own_client_side_events")
     if any(t[0] == "x" for t in stimuli):
         rec.count("cases_with_unknown_address_events")
     rec.seen("outcomes", "%s/%s/%s" % (case["kind"], mode_name(case), outcome))
@@ -994,6 +1045,11 @@ def shard_cases(spec):
         for st in retry_cases(spec["maxn"], spec.get("minn", 1)):
             for aw in (False, True):
                 for kind in spec.get("kinds", ("eph3", "fs3", "auth-key")):
+                    yield {"kind": kind, "await_all": aw, "stimuli": st}
+    elif mode == "clientside":
+        for st in clientside_cases(spec["maxn"]):
+            for aw in (False, True):
+                for kind in spec.get("kinds", ("eph3", "fs3")):
                     yield {"kind": kind, "await_all": aw, "stimuli": st}
     elif mode == "unknownaddr":
         for st in unknown_address_cases(spec["maxn"]):
@@ -1094,6 +1150,8 @@ def plan(tier, seed):
         specs.append({"mode": "special", "name": "rejected creating command / discarded key of a basic-auth service / await_all_uploads=None"})
         specs.append({"mode": "retries", "maxn": 2, "sample_every": 3,
                       "name": "sample of own orderings over 1-2 directories with one directory tried again (second attempt pending / UPLOADED / FAILED at every position)"})
+        specs.append({"mode": "clientside", "maxn": 2, "sample_every": 2,
+                      "name": "sample of own 1-2 dirs x own-address events that are no upload reports (REQUESTED/RECEIVED/IGNORE/CREATED/fetch FAILED) x every interleaving"})
         specs.append({"mode": "unknownaddr", "maxn": 2, "sample_every": 2,
                       "name": "sample of own 1-2 dirs x events with the address token UNKNOWN (FAILED / REQUESTED) x every interleaving"})
         specs.append({"mode": "dups", "maxn": 2,
@@ -1130,6 +1188,9 @@ def plan(tier, seed):
         for i in range(4):
             specs.append({"mode": "retries", "maxn": 3, "minn": 3, "part": i, "parts": 4, "sample_every": 6, "timeout_s": 3000,
                           "name": "sample of own orderings over 3 directories with one directory tried again"})
+        for i in range(2):
+            specs.append({"mode": "clientside", "maxn": 2, "part": i, "parts": 2, "kinds": ["eph3", "fs3", "auth-key"],
+                          "name": "own 1-2 dirs x own-address events that are no upload reports (REQUESTED/RECEIVED/IGNORE/CREATED/fetch FAILED) x every interleaving x mode x 3 kinds"})
         for i in range(2):
             specs.append({"mode": "unknownaddr", "maxn": 2, "part": i, "parts": 2, "kinds": ["eph3", "fs3", "auth-key"],
                           "name": "own 1-2 dirs x events with the address token UNKNOWN (FAILED / REQUESTED) x every interleaving x mode x 3 kinds"})
